@@ -3,6 +3,7 @@ CONSTANTS
   Conns <- TraceConns
   SKeys <- TraceSKeys
   Report = TRUE
+  Checked = {}
 CONSTRAINT HW
 POSTCONDITION PostReport
 CHECK_DEADLOCK FALSE
